@@ -418,10 +418,15 @@ def m_jaro_winkler(I, st, inst, args):
 def _child_name(self, parent, t, variant, field):
     n = t.adt["name"] if t.adt else ""
     if n == "syn::Meta" and variant == "Path" and field == "0":
+        META_PATHS.add(parent + ".path")
         return parent + ".path"
     if n in ("syn::MetaList", "syn::MetaNameValue") and field == "path" and (parent.endswith(".List.0") or parent.endswith(".NameValue.0")):
+        META_PATHS.add(parent.rsplit(".", 2)[0] + ".path")
         return parent.rsplit(".", 2)[0] + ".path"
     return None
+
+
+META_PATHS = set()     # names of lazies that are the path of a syn::Meta (mod-style: syn's Meta parser never produces generic arguments)
 
 
 def _digits_content(self, I, st, name, kind):
@@ -456,6 +461,7 @@ def m_meta_path(I, st, inst, args):
     v = I.read(st, p, expand_scalar=False)
     ret = I.types[inst.sig[-1]]
     if isinstance(v, Lazy):
+        META_PATHS.add(v.name + ".path")
         return Ptr(lazy_cell(I, st, v.name + ".path", ret.elem))
     if isinstance(v, Agg):
         mt = I.types[I.pointee(inst.sig[0])]
@@ -480,6 +486,10 @@ def _syn_variants(self, I, st, lz, t):
         depth = getattr(self, "group_depth", 1)
         if lz.name.count(".Group.0.expr") >= depth:
             return [i for i, v in enumerate(t.adt["variants"]) if v["name"] != "Group"]
+    if t.adt and t.adt["name"] == "syn::PathArguments" and lz.name.endswith(".arguments"):
+        owner = lz.name.rsplit(".segments[", 1)[0]
+        if owner in META_PATHS:
+            return [i for i, v in enumerate(t.adt["variants"]) if v["name"] == "None"]
     return None
 
 
@@ -553,6 +563,18 @@ def render_tokens(I, st, toks):
             parts.append(s)
         elif t[0] == "node" and t[1].endswith("Ident"):
             parts.append(t[2].data[0])
+        elif t[0] == "node" and t[1].endswith("PathSegment"):
+            sgm = t[2]
+            if isinstance(sgm, Lazy):
+                sgm = I.lazy.expand(I, st, sgm, None)
+            idv, pa = sgm.f[0], sgm.f[1]
+            if isinstance(idv, Lazy):
+                idv = I.lazy.expand(I, st, idv, None)
+            if isinstance(pa, Lazy):
+                pa = I.lazy.expand(I, st, pa, None)
+            if not (isinstance(pa, Agg) and pa.v == 0):
+                raise Unsupported("printing of a path segment with generic arguments")
+            parts.append(idv.data[0])
         else:
             raise Unsupported("printing of token %r" % (t[:2],))
     out = ""
